@@ -40,6 +40,16 @@ func genC06(t *rapid.T) c06Case {
 		}
 		p.Validations = append(p.Validations, m.Validation{Name: fmt.Sprintf("v%d", i), Level: pick(t, []string{"violation", "warning", "info"}, "level"), Class: "ex.Test", Body: body})
 	}
+	// constraint keys that are path expressions (alternatives inside sequences inside alternatives, inverse steps):
+	// the names the translator invents while walking them must not depend on the process
+	pathsUsed := false
+	if rapid.IntRange(0, 2).Draw(t, "pathKeys") == 0 {
+		ops := 0
+		for _, v := range p.Validations {
+			decoratePaths(t, v.Body, &ops)
+		}
+		pathsUsed = ops > 0
+	}
 	for _, v := range p.Validations {
 		v.Body.MarkPolarity(m.Pos)
 	}
@@ -52,7 +62,7 @@ func genC06(t *rapid.T) c06Case {
 		sm.Conflicts = rapid.Bool().Draw(t, "conflicts")
 		data = sm.Attach(gr).JSONLD(genLDOpts(t, 0))
 	}
-	c := c06Case{Profile: p.ToY().Print(m.YOpts{}), Data: data, Procs: rapid.IntRange(0, 3).Draw(t, "procs") == 0}
+	c := c06Case{Profile: p.ToY().Print(m.YOpts{}), Data: data, Procs: rapid.IntRange(0, 3).Draw(t, "procs") == 0 || pathsUsed}
 	// a long enumeration (whatever the translator does with long lists must come out the same in every process)
 	if rapid.IntRange(0, 4).Draw(t, "longList") == 0 {
 		c.Profile = appendValidation(c.Profile, "vlong", bigListValidation(rapid.SampledFrom([]int{31, 32, 33, 64, 100, 300}).Draw(t, "longListLen"), "p0"))
